@@ -81,7 +81,10 @@ fn gen_params(rng: &mut Rng, thorough: bool) -> P {
     // must continue to the subscriber / participant
     let focus = if rng.chance(0.33) { Some(StatusKind::DataAvailable) } else { None };
     let n_writes = 2 + rng.below(if thorough { 6 } else { 4 }) as u32;
-    P {
+    // DEADLINE and the resource limit are never combined: a rejected sample makes the (fixed)
+    // worker spin until the deadline check fires, which is not this property's business
+    let feature = rng.below(5);
+    let mut p = P {
         a_dp: gen_lm(rng, &both, None),
         a_pub: gen_lm(rng, &W_KINDS, None),
         a_w: gen_lm(rng, &W_KINDS, None),
@@ -90,15 +93,18 @@ fn gen_params(rng: &mut Rng, thorough: bool) -> P {
         b_r: gen_lm(rng, &R_KINDS, focus),
         r2: if rng.chance(0.4) { Some(gen_lm(rng, &R_KINDS, None)) } else { None },
         rbad: if rng.chance(0.5) { Some(gen_lm(rng, &R_KINDS, None)) } else { None },
-        deadline: rng.chance(0.4),
-        limit: rng.chance(0.4),
+        deadline: false,
+        limit: false,
         n_writes,
         take_after: (0..n_writes).map(|_| rng.chance(0.3)).collect(),
         rbad_pos: rng.below(n_writes as u64 + 1) as u32,
         policy: pick_policy(rng),
         clock_tick: *rng.pick(&[0i64, 0, 1, 1000]),
         jitter: *rng.pick(&[0i64, 0, 1000, 1_000_000]),
-    }
+    };
+    p.deadline = feature == 0 || feature == 1;
+    p.limit = feature == 2 || feature == 3;
+    p
 }
 
 fn lm_json(l: &Lm) -> Json {
@@ -549,7 +555,7 @@ pub fn run(shard: &Shard) -> Report {
         cfg.sim.policy = p.policy;
         cfg.sim.clock_tick = p.clock_tick;
         cfg.sim.jitter_max = p.jitter;
-        cfg.sim.max_polls = shard.args.u64("max-polls", 3_000_000);
+        cfg.sim.max_polls = shard.args.u64("max-polls", 600_000);
         let p2 = p.clone();
         let (res, stats, _net) = run_world(&cfg, move |w| scenario(w, p2));
         rep.eval();
